@@ -22,7 +22,7 @@ _HOT_FUNCS = {"__array_finalize__", "__new__", "_wrap_result", "Array", "zip", "
 
 
 def scan():
-    sites = {"with": [], "store": [], "flag": [], "func": [], "mut": []}
+    sites = {"with": [], "store": [], "flag": [], "func": [], "mut": [], "glob": []}
     dispatch_with = []  # (relpath, first body line, last body line)
     for root, dirs, files in os.walk(env.VECTOR_DIR):
         dirs.sort()
@@ -38,6 +38,40 @@ def scan():
             except SyntaxError:
                 continue
             classnames = {n.name for n in ast.walk(tree) if isinstance(n, ast.ClassDef)}
+            # module-level mutable containers (tables, caches, registries) and the functions that touch them
+            containers = set()
+            for node in tree.body:
+                if isinstance(node, (ast.Assign, ast.AnnAssign)):
+                    val = node.value
+                    tg = node.targets if isinstance(node, ast.Assign) else [node.target]
+                    if isinstance(val, (ast.Dict, ast.List, ast.Set, ast.Call, ast.DictComp, ast.ListComp, ast.SetComp)):
+                        for t_ in tg:
+                            if isinstance(t_, ast.Name):
+                                containers.add(t_.id)
+            if containers:
+                _MUTATORS = {"clear", "update", "pop", "popitem", "append", "extend", "add", "remove", "discard", "insert",
+                             "setdefault", "move_to_end", "appendleft", "popleft", "sort", "reverse"}
+                written = set()
+                for fnode in ast.walk(tree):
+                    if not isinstance(fnode, ast.FunctionDef):
+                        continue
+                    for n in ast.walk(fnode):
+                        if isinstance(n, (ast.Assign, ast.AugAssign, ast.Delete)):
+                            tg = n.targets if isinstance(n, (ast.Assign, ast.Delete)) else [n.target]
+                            for t_ in tg:
+                                if isinstance(t_, ast.Subscript) and isinstance(t_.value, ast.Name) and t_.value.id in containers:
+                                    written.add(t_.value.id)
+                        elif isinstance(n, ast.Call) and isinstance(n.func, ast.Attribute) and n.func.attr in _MUTATORS \
+                                and isinstance(n.func.value, ast.Name) and n.func.value.id in containers:
+                            written.add(n.func.value.id)
+                        elif isinstance(n, ast.Global):
+                            written.update(x for x in n.names if x in containers)
+                # only containers that some function *changes at run time* (read-only tables are not shared state)
+                for fnode in ast.walk(tree):
+                    if isinstance(fnode, ast.FunctionDef) and any(isinstance(n, ast.Name) and n.id in written for n in ast.walk(fnode)):
+                        for sub in ast.walk(fnode):
+                            if isinstance(sub, ast.stmt) and sub is not fnode:
+                                sites["glob"].append(f"{rel}:{sub.lineno}")
             # candidate operand mutations: stores through an attribute / subscript, augmented assignment to a parameter
             for fnode in ast.walk(tree):
                 if not isinstance(fnode, ast.FunctionDef):
